@@ -61,6 +61,11 @@ CHECKS = {
          "For every valid encoding of the seed corpus (incl. s2-compressed objects and a real sender packfile) every truncation, every listed byte replacement, every 2/4-byte big-endian overwrite with boundary values, every one-byte insertion/deletion is generated - the complete neighbourhood, not a sample - and fed to every decoder entry point and to ObjectReceiver.Receive (empty and pre-populated store); plus all byte strings of length <= 2 and all 3..4-byte strings over a 7-byte alphabet. Each call must return without panic, within a read-count bound and a heap-allocation bound measured from the runtime's allocation counter; after a rejected packfile nothing of the rejected object may remain. Workers run under ulimit -v so runaway allocations are captured as replayable crashes.",
          "Trusted: the mutation enumerator; runtime/metrics allocation counter (single-goroutine workers). Inputs further than one edit from a valid encoding are covered only up to length 4. One known finding: the s2 codec allocates its declared decoded length (see known_findings.json).",
          "DESIGN.md §4 C17"),
+ "C04": ("exploration",
+         "exhaustive enumeration of all ordered table pairs over a small key universe (scaled block size) and over block-edge key segments (real block size) against a set model",
+         "All 16384 ordered pairs of key subsets of a 7-key universe under the block size scaled to 3 (so every pair spans 0..3 blocks: empty, disjoint, interleaved, nested, identical ranges), with every listed modification pattern and key layout incl. composite keys that tie across block boundaries, and all ordered pairs of unions of key segments sized to put keys on real 255-row block edges, are ingested and diffed by the real code; the events are compared with the set model and every offset is resolved back to its row. The block-window search only looks at first keys of blocks, so this scope drives every branch of it.",
+         "Trusted: the set model and hash recomputation (60 lines); the blocksize overlay (fail-closed). Pairs with different column lists are not judged.",
+         "DESIGN.md §4 C04"),
 }
 
 NOT_YET = {}
